@@ -42,7 +42,7 @@ def fixes : Op → Getter → Bool
   | .setHardlink none, g => [Getter.hardlink, .hardlinkIsSet].contains g
   | .setLinkToHardlink, g => [Getter.hardlinkIsSet, .symlink].contains g
   | .setLinkToSymlink, g => [Getter.hardlinkIsSet, .hardlink].contains g
-  | .setFflags _ _, g => [Getter.fflags].contains g
+  | .setFflags _ _, g | .copyFflagsText _, g => [Getter.fflags, .fflagsText].contains g
   | .setSymlinkType _, g => [Getter.symlinkType].contains g
   | .setIsDataEncrypted _, g => [Getter.isDataEncrypted].contains g
   | .setIsMetadataEncrypted _, g => [Getter.isMetadataEncrypted].contains g
@@ -57,7 +57,7 @@ def fixes : Op → Getter → Bool
 macro "entry_eval" : tactic => `(tactic|
   simp (disch := decide) [obs, timeSec, timeNsec, timeIsSet, dev, devmajor, devminor, devIsSet, rdev, rdevmajor, rdevminor, rdevIsSet,
       ino, inoIsSet, nlink, uid, uidIsSet, gid, gidIsSet, size, sizeIsSet, mode, filetype, filetypeIsSet, perm, permIsSet,
-      getStr, Entry.str, hardlink, hardlinkIsSet, symlink, fflags, symlinkType, isDataEncrypted, isMetadataEncrypted,
+      getStr, Entry.str, hardlink, hardlinkIsSet, symlink, fflags, fflagsTextV, copyFflagsText, symlinkType, isDataEncrypted, isMetadataEncrypted,
       sparseCount_fst, sparseCount_snd, sparseWhole, xattrCount, macMetadata,
       unsetTimeCore, setTimeCore, Entry.withTime, TimeField.flag, setSize, unsetSize, setDev, setDevmajor, setDevminor,
       setRdev, setRdevmajor, setRdevminor, setIno, setNlink, setUid, setGid, setMode, setPerm, setFiletype, setStr,
